@@ -22,4 +22,4 @@ class EvaluateStep(GeneticStep):
     ) -> Iterator[Individual]:
         npopulation = list(population)
         evaluator.evaluate(problem, npopulation)
-        yield from npopulation
+        yield from npopulation[:target_size]
